@@ -651,6 +651,8 @@ class ObjectMethod(DeserializationMethod):
     aliaser: Aliaser
     missing: str
     unexpected: str
+    # additional properties kept by a TypedDict share nothing with the data
+    copy_additional: bool = False
     aggregate_fields: bool = field(init=False)
 
     def __post_init__(self):
@@ -770,7 +772,9 @@ class ObjectMethod(DeserializationMethod):
                             )
                 elif self.typed_dict:
                     for key in remain:
-                        values[key] = data[key]
+                        values[key] = (
+                            copy_any(data[key]) if self.copy_additional else data[key]
+                        )
         elif len(data) != fields_count:
             if not self.additional_properties:
                 for key in data.keys() - self.all_aliases:
@@ -780,7 +784,9 @@ class ObjectMethod(DeserializationMethod):
                         )
             elif self.typed_dict:
                 for key in data.keys() - self.all_aliases:
-                    values[key] = data[key]
+                    values[key] = (
+                        copy_any(data[key]) if self.copy_additional else data[key]
+                    )
         if self.validators:
             init = None
             if self.init_defaults:
